@@ -4,6 +4,11 @@ V = os.path.dirname(os.path.dirname(os.path.abspath(__file__)))
 props = [json.loads(l) for l in open(os.path.join(V, "properties.jsonl"))]
 
 CLAIMED = {
+    "C14": dict(
+        text="Coq theorems about the model of the event-group loop (stable sort of the stream heads by publish time, pop, process, push the stream's next) for every set of streams: the output is a Permutation of all updates (complete, exactly once; the fuel used by the model is proved sufficient), contains each stream as a subsequence (each market's own order preserved) and is sorted by publish time whenever each file is. Listener filters (inplay / seconds_to_start / max_inplay_seconds) are modelled as a small state machine. Tie to code: the (market, publish time) sequence delivered by the real FlumineSimulation for 1-5 files, 1-3 events, event_processing on/off, equal times, closing updates is compared in Coq with the model's order; filtered delivery vs. the model; ledgers identical across 4 PYTHONHASHSEEDs in fresh processes for runs with three event groups; clock = publish time in every callback, restored after the run also on exception and still simulated after a failing real_time() block.",
+        note="PARTIAL for 'configurations': hash seeds / process identity cannot be expressed in the model - sampled (4 seeds). The grouping of streams by event (dict insertion order) is re-stated in the harness (trusted, 10 lines). Trusted: Coq kernel + vm_compute; simlib.py. Print Assumptions: closed under the global context.",
+        technique="Coq proof (Permutation / subsequence / StronglySorted by induction on fuel) + differential correspondence evaluated in Coq + cross-process determinism runs",
+        ref="DESIGN.md §5 C14"),
     "C08": dict(
         text="Coq theorems about the model of SimulatedOrder.profit / Market.cleared for every stake, price, result, dead-heat count, divisor and every sign-symmetric tie-break: a back and a lay with identical fills have exactly opposite profit (line markets: whenever the struck line differs from the result; the equal case is REFUTED by theorem - known finding F-C08-1: both lose); zero for unmatched orders and removed runners; stake x (price-1) / minus the stake; the dead-heat reduction; a back never loses more than its stake; the cleared summary is the sum over the client's matched orders with commission >= 0, zero unless the net is a win and equal to round(profit x rate) otherwise. Tie to code: SimulatedOrder.profit on real orders (8k-40k cases incl. each-way, line, dead heats) vs the model (both tie-breaks) AND an independent exact-rational calculator; Blotter.process_closed_market (results/terms copied to every order, dead-heat count) and Market.cleared on real markets with 1-2 clients.",
         note="Trusted: Coq kernel + vm_compute; harness/impl/c08.py; each-way dead heats are outside (property and code say so); the 2dp average matched price is the price the exchange reports. Print Assumptions: closed under the global context.",
